@@ -51,6 +51,8 @@ def obligations(tier):
                   "new_version, parse of an instance, bundle member, constructor from the finished object's values strict and permissive, two marking steps)"),
         CH("content_carried_by_registered_toplevel_extension", H, "extension_carried", t, mode="E1s", functions=F[:1] + F[4:6],
            bounds="8 (property, clean value, custom value) cases for the properties a registered toplevel-property-extension defines (reference, list of references, hashes in two orders, embedded object, list of embedded objects, integer) x clean/custom x 3 host objects (SDO, SCO, SRO) x with/without a second extension property: strict refusal, flag, strict re-parse and the enclosing bundle's flag agree"),
+        CH("extras_next_to_a_toplevel_extension", H, "extras_next_to_toplevel_extension", t, mode="E1s", functions=F[:1],
+           bounds="an extension property and optionally a genuinely custom one, given as keywords / through custom_properties / one each way, next to a registered or an unregistered toplevel-property-extension on an SDO and an SCO: flag, strict re-parse verdict and presence of the values agree"),
         CH("references_given_as_objects", H, "references_by_instance", t, mode="E1s", functions=F[5:6],
            bounds="9 sites taking a reference (relationship ends, sighting, report / note lists, new_version) of both versions x the referred-to object a standard type or a registered custom type, given as the object and as its id: same strict verdict, flag and re-parse verdict"),
         CH("unknown_types_and_store_switch", H, "stores_and_unknown_types", t, mode="E1s", functions=F[8:10],
